@@ -16,6 +16,22 @@ Inductive CodesIn (L : list N) : nat -> expr -> Prop :=
     (forall s, In s (eval_subs e) -> CodesIn L fu s) ->
     CodesIn L (S fu) e.
 
+(* the decidable version, for concrete trees *)
+Fixpoint codes_in_b (L : list N) (fu : nat) (e : expr) : bool :=
+  match fu with
+  | O => true
+  | S f => existsb (N.eqb (type_code e)) L && forallb (codes_in_b L f) (eval_subs e)
+  end.
+
+Lemma codes_in_b_sound : forall L fu e, codes_in_b L fu e = true -> CodesIn L fu e.
+Proof.
+  intros L. induction fu as [| fu IH]; intros e H; [ constructor | ].
+  cbn [codes_in_b] in H. apply andb_true_iff in H. destruct H as [H1 H2].
+  constructor.
+  - apply existsb_exists in H1. destruct H1 as [c [Hc He]]. apply N.eqb_eq in He. subst. auto.
+  - intros s Hs. apply IH. rewrite forallb_forall in H2. auto.
+Qed.
+
 Definition dispatch_codes : list N :=
   [TC_Integer; TC_Rational; TC_RealDouble; TC_Mul; TC_Add; TC_Pow; TC_Log; TC_Constant;
    TC_Sin; TC_Cos; TC_Tan; TC_Cot; TC_Csc; TC_Sec; TC_ASin; TC_ACos; TC_ASec; TC_ACsc; TC_ATan; TC_ACot; TC_ATan2;
